@@ -195,6 +195,29 @@ func c05Handoff(rng *rand.Rand, j int) *SessSpec {
 	return sp
 }
 
+// c05PeriodicAcrossRebalance: automatic checkpointing, one rebalance, then a periodic save held inside the store call while a newer
+// acknowledgement of the same vBucket is committed explicitly. The explicit save either waits for the periodic one or is
+// not overwritten by it: after both finished the store holds the newer position.
+func c05PeriodicAcrossRebalance(rng *rand.Rand, j int) *SessSpec {
+	sp := &SessSpec{NumVB: 1 + rng.Intn(4), Nodes: 1, AckSeed: rng.Int63(), Backlog: map[int][][]ItemSpec{}, Backend: "mem", API: true,
+		Membership: "dynamic", FirstInfo: [2]int{1, 1}, PNow: 0, PDefer: 1, Auto: true, IntervalMs: 15 + rng.Intn(30)}
+	ctr := 0
+	doc := func() ItemSpec { ctr++; return ItemSpec{K: "m", Key: []byte(fmt.Sprintf("p%d", ctr)), Val: []byte("{}")} }
+	for vb := 0; vb < sp.NumVB; vb++ {
+		sp.Backlog[vb] = [][]ItemSpec{{doc()}}
+	}
+	vb := rng.Intn(sp.NumVB)
+	sp.Steps = []Step{{Op: "barrier"}, {Op: "ack", Sel: "all"}, {Op: "commit"}}
+	for r := 0; r < 1+j%2; r++ {
+		sp.Steps = append(sp.Steps, Step{Op: "rebalanceapi"}, Step{Op: "waitrebalance", N: r + 1}, Step{Op: "barrier"})
+	}
+	sp.Steps = append(sp.Steps, Step{Op: "append", VB: vb, Items: []ItemSpec{doc(), doc()}}, Step{Op: "append", VB: vb, Items: []ItemSpec{doc()}}, Step{Op: "barrier"},
+		Step{Op: "holdsave", N: 1}, Step{Op: "ackbg", VB: vb}, Step{Op: "waitbg"}, Step{Op: "waitsave"},
+		Step{Op: "ackbg", VB: vb}, Step{Op: "waitbg"}, Step{Op: "commitasync"}, Step{Op: "sleep", Ms: 60 + rng.Intn(60)},
+		Step{Op: "releasesave"}, Step{Op: "sleep", Ms: 120}, Step{Op: "check"})
+	return sp
+}
+
 func c05Spec(rng *rand.Rand, i int) (*SessSpec, string) {
 	kinds := []string{"plain", "inflight", "fail", "nondoc", "cb", "auto", "cbfault", "file"}
 	kind := kinds[i%len(kinds)]
@@ -374,6 +397,11 @@ func init() {
 			xr := rand.New(rand.NewSource(seed*61 + 23))
 			for j := 0; j < n/20; j++ {
 				out = append(out, drv.Scenario{Kind: "ack-in-handoff", Seed: seed, Params: mustJSON(c05Handoff(xr, j)), TimeoutS: 90})
+			}
+			// after a rebalance: a slow periodic save overlapped by an explicit save of a newer position of the same vBucket
+			pr := rand.New(rand.NewSource(seed*67 + 5))
+			for j := 0; j < n/40; j++ {
+				out = append(out, drv.Scenario{Kind: "periodic-across-rebalance", Seed: seed, Params: mustJSON(c05PeriodicAcrossRebalance(pr, j)), TimeoutS: 120, Solo: true})
 			}
 			return out
 		},
